@@ -383,15 +383,24 @@ Proof.
     + intros b Hb a a' H. rewrite !E2. apply (DEPM e b Hb a a' H).
 Qed.
 
+Theorem pipeline_correct_ok : forall tc use_memo P q e M D kq kes,
+    stratified (wp_graph P) -> (forall a, is_model (wp_graph P) a (M a)) -> extras_fresh P ->
+    break_cycles_m tc use_memo (wp_graph P) (ai_of P) [q] e = Some (D, [kq], kes) ->
+    dag_ok P D ->
+    pipeline tc use_memo P q e = Some (world_prob P M q e).
+Proof.
+  intros tc um P q e M D kq kes ST HM XF BC OK.
+  destruct (pipeline_counts tc um P q e M D kq kes ST HM XF BC OK) as [E1 E2].
+  unfold pipeline, world_prob. rewrite BC, E1, E2. reflexivity.
+Qed.
+
 Theorem pipeline_correct_checked : forall tc use_memo P q e M D kq kes,
     stratified (wp_graph P) -> (forall a, is_model (wp_graph P) a (M a)) -> extras_fresh P ->
     break_cycles_m tc use_memo (wp_graph P) (ai_of P) [q] e = Some (D, [kq], kes) ->
     dag_okb P D = true ->
     pipeline tc use_memo P q e = Some (world_prob P M q e).
 Proof.
-  intros tc um P q e M D kq kes ST HM XF BC OK.
-  destruct (pipeline_counts tc um P q e M D kq kes ST HM XF BC (dag_okb_sound _ _ OK)) as [E1 E2].
-  unfold pipeline, world_prob. rewrite BC, E1, E2. reflexivity.
+  intros. eapply pipeline_correct_ok; eauto. apply dag_okb_sound; auto.
 Qed.
 
 (* Inconsistent exactly when the weighted model count of the evidence is 0 *)
